@@ -93,8 +93,17 @@ def check_attempt(cs, head, wallet_keys_order, spent_record, used, amount, fee, 
             viol.append(('failed-attempt-changes-record', "attempt (amount %d, fee %d) fails (%s) but the record of used outputs "
                          "grows by %d" % (amount, fee, str(e)[:40], len(after - before))))
         if available >= amount + fee:
-            viol.append(('affordable-spend-fails', "attempt (amount %d, fee %d) fails (%s) although unused wallet outputs sum to %d"
-                         % (amount, fee, str(e)[:40], available)))
+            # a transaction must fit in a block: with the unused outputs taken largest first, do the inputs that fit
+            # (101 bytes each next to the version byte, two counts and two 73-byte outputs) reach the amount at all?
+            # If not, no wallet could build a valid transaction for this request and a refusal is the only right answer.
+            from skepticoin.params import MAX_BLOCK_SIZE
+            fit = (MAX_BLOCK_SIZE - (1 + 3 + 1 + 2 * 73)) // 101
+            best = sum(sorted((v for r, v in wouts.items() if r not in used), reverse=True)[:fit])
+            if best >= amount + fee:
+                viol.append(('affordable-spend-fails', "attempt (amount %d, fee %d) fails (%s) although unused wallet outputs sum to %d"
+                             % (amount, fee, str(e)[:40], available)))
+            else:
+                check_attempt.too_large = getattr(check_attempt, 'too_large', 0) + 1
         return viol, None, after
     after = {(r.hash, r.index) for r in w.spent_transaction_outputs}
     # validity: the node's validators and the reference validator
@@ -314,9 +323,10 @@ def big_world(arg):
 
 def big_worlds(ctx):
     N = 1100
-    out = [('5-ones-4', N, False, 0), ('ones-7', N, False, 0), ('9-ones', N, True, 0)]
+    # (2,100 outputs: requests that need more inputs than fit in a block)
+    out = [('5-ones-4', N, False, 0), ('ones-7', N, False, 0), ('9-ones', N, True, 0), ('5-ones-4', 2100, False, 0)]
     if not ctx.quick:
-        out += [('ones', N, False, 0), ('5-ones-4', N, True, 1), ('5-ones-4', 2100, False, 0)]
+        out += [('ones', N, False, 0), ('5-ones-4', N, True, 1), ('9-ones', 2100, True, 1)]
     return out
 
 
